@@ -261,12 +261,44 @@ fn ages_tier(v_ns: i128, blur: i128, tier: Tier) -> Vec<i128> {
     a
 }
 
+/// Ages at which a conversion of the elapsed time to a narrower integer type, in any of the usual
+/// units, would wrap: k * 2^w * unit (+ small offsets). A wrapped age looks young again.
+pub fn wrap_ages() -> Vec<i128> {
+    let mut v = vec![];
+    for unit in [1i128, 1_000, 1_000_000, S] {
+        for w in [16u32, 31, 32] {
+            let base = (1i128 << w) * unit;
+            for k in [1i128, 2, 3] {
+                for d in [-1i128, 0, 1, S, 4_900_000_000] {
+                    v.push(k * base + d);
+                }
+            }
+        }
+    }
+    v
+}
+
+/// Ages decomposed as (whole seconds, nanoseconds), both signs: arithmetic on (tv_sec, tv_nsec) pairs
+/// can go wrong in one component independently of the other.
+pub fn two_component_ages() -> Vec<i128> {
+    let mut v = vec![];
+    for s in [0i128, 1, 2, 5, 1000, 3600, 86_400, 31_536_000] {
+        for n in [0i128, 1, 999, 1000, 1001, 500_000_000, 999_999_000, 999_999_999] {
+            v.push(s * S + n);
+            v.push(-(s * S + n));
+        }
+    }
+    v
+}
+
 fn ages(v_ns: i128, blur: i128) -> Vec<i128> {
     let mut a: Vec<i128> = vec![
         -4 * S, -1_000_000, -1001, -1000, -999, -1, 0, 1, 999, 1000, 1_000_000, 300_000_000, S - 1, S, 2 * S, 5 * S - 1, 5 * S, 5 * S + 1, 999 * S,
         v_ns - 1, v_ns, v_ns + 1, 3600 * S, 36_000 * S, 2_144_000_000 * S,
         -blur - 1, -blur, -blur + 1,
     ];
+    a.extend(two_component_ages());
+    a.extend(wrap_ages());
     a.sort();
     a.dedup();
     a
